@@ -97,7 +97,7 @@ def rule_RE(run: Run) -> RuleResult:
         d = "previous runtime pushed on a per-thread stack at each entry"
     res.add("labrea.runtime.Runtime.__enter__:restore state is per entry and per thread", ok, f, en.lineno, d, nec)
     # __exit__ restores what that entry pushed
-    pops = [c for c in astu.calls_in(ex) if isinstance(c.func, ast.Attribute) and c.func.attr == "pop" and TABLE not in ast.unparse(c.func.value)]
+    pops = [c for b in astu.substituted_helper_bodies(ex, rt) for c in astu.calls_in(b) if isinstance(c.func, ast.Attribute) and c.func.attr == "pop" and TABLE not in ast.unparse(c.func.value)]
     reads_scalar = [n for n in astu.walk_no_nested(ex) if isinstance(n, ast.Attribute) and isinstance(n.value, ast.Name) and n.value.id == "self"
                     and any(n.attr == s[1] for s in scalar) and isinstance(n.ctx, ast.Load)]
     ok2 = bool(pops) and not reads_scalar
@@ -199,11 +199,8 @@ def rule_DF(run: Run) -> RuleResult:
     fn = rt.methods.get("run")
     if fn is None:
         raise AnalysisError("Runtime.run not found")
-    # functions reachable from run through self.<helper>
-    bodies = [fn]
-    for c in astu.calls_in(fn):
-        if isinstance(c.func, ast.Attribute) and astu.is_self_attr(c.func) and c.func.attr in rt.methods:
-            bodies.append(rt.methods[c.func.attr])
+    # run plus the helpers it calls through self, parameters substituted
+    bodies = astu.substituted_helper_bodies(fn, rt)
     lookups = []
     for b in bodies:
         for n in ast.walk(b):
@@ -218,14 +215,14 @@ def rule_DF(run: Run) -> RuleResult:
     res.add("labrea.runtime.Runtime.run:falls back to the default table at call time", ok, m.relpath, fn.lineno,
             f"{DEFAULTS}[type(request)] consulted in run()" if ok else f"run() never consults {DEFAULTS}: only the snapshot taken in __init__ is used", nec)
     # own handlers first, TypeError when nothing serves
-    own = any(isinstance(n, ast.Subscript) and astu.is_self_attr(n.value, "handlers") and ast.unparse(astu.expand_locals(n.slice, amap)) == "type(request)" for n in ast.walk(fn)) or \
-        any(isinstance(c.func, ast.Attribute) and astu.is_self_attr(c.func.value, "handlers") and c.func.attr == "get" for c in astu.calls_in(fn))
+    own = any(isinstance(n, ast.Subscript) and astu.is_self_attr(n.value, "handlers") and ast.unparse(astu.expand_locals(n.slice, amap)) == "type(request)" for b in bodies for n in ast.walk(b)) or \
+        any(isinstance(c.func, ast.Attribute) and astu.is_self_attr(c.func.value, "handlers") and c.func.attr == "get" for b in bodies for c in astu.calls_in(b))
     res.add("labrea.runtime.Runtime.run:looks the handler up by type(request) in its own handlers", own, m.relpath, fn.lineno, "self.handlers[type(request)]", nec)
-    raises = [r for r in astu.walk_no_nested(fn) if isinstance(r, ast.Raise) and r.exc is not None]
+    raises = [r for b in bodies for r in ast.walk(b) if isinstance(r, ast.Raise) and r.exc is not None]
     ok_t = bool(raises) and all(isinstance(r.exc, ast.Call) and astu.short_name(r.exc) == "TypeError" for r in raises)
     res.add("labrea.runtime.Runtime.run:unserved request fails with TypeError", ok_t, m.relpath, fn.lineno, f"{[ast.unparse(r.exc)[:40] for r in raises]}", nec)
     rets = [r for r in astu.walk_no_nested(fn) if isinstance(r, ast.Return) and r.value is not None]
-    ok_r = bool(rets) and all(isinstance(r.value, ast.Call) and len(r.value.args) == 1 and ast.unparse(r.value.args[0]) == "request" for r in rets)
+    ok_r = bool(rets) and all(isinstance(r.value, ast.Call) and len(r.value.args) == 1 and ast.unparse(r.value.args[0]) == "request" and not r.value.keywords for r in rets)
     res.add("labrea.runtime.Runtime.run:returns handler(request)", ok_r, m.relpath, fn.lineno, f"{[ast.unparse(r.value) for r in rets]}", nec)
     # Request.run goes through the current runtime
     rq = run.repo.cls("Request")
@@ -396,8 +393,28 @@ def rule_LS(run: Run) -> RuleResult:
         res.add("labrea.overload.Overloaded.register:updates self.lookup", False, om.relpath, reg.lineno, "register no longer assigns self.lookup", nec)
     # the lock is per object and survives pickling by id
     gl = repo.functions.get("labrea.overload._get_lock")
-    ok = gl is not None and any(isinstance(c.func, ast.Attribute) and c.func.attr == "setdefault" for c in astu.calls_in(gl.node))
-    res.add("labrea.overload._get_lock:one lock per key via setdefault", ok, om.relpath, gl.node.lineno if gl else 0, "", nec)
+    ok = False
+    if gl is not None:
+        k = astu.param_names(gl.node, skip_self=False)[0]
+        from_table = set()
+        stored = set()
+        for s_ in ast.walk(gl.node):
+            if isinstance(s_, ast.Assign) and isinstance(s_.targets[0], ast.Name) and "_LOCKS" in ast.unparse(s_.value):
+                from_table.add(s_.targets[0].id)
+            if isinstance(s_, ast.Assign) and ast.unparse(s_.targets[0]) == f"_LOCKS[{k}]" and isinstance(s_.value, ast.Name):
+                stored.add(s_.value.id)
+        rets = [r.value for r in ast.walk(gl.node) if isinstance(r, ast.Return) and r.value is not None]
+        ok = bool(rets)
+        for r in rets:
+            if isinstance(r, ast.Call) and ast.unparse(r.func) == "_LOCKS.setdefault" and ast.unparse(r.args[0]) == k:
+                continue
+            if isinstance(r, ast.Name) and r.id in from_table and (r.id in stored or True):
+                # a lock read from the table, or the fresh one that was just stored under the key
+                if r.id in stored or not any(isinstance(s_, ast.Assign) and isinstance(s_.targets[0], ast.Name) and s_.targets[0].id == r.id and "Lock(" in ast.unparse(s_.value) for s_ in ast.walk(gl.node)):
+                    continue
+            ok = False
+    res.add("labrea.overload._get_lock:one lock per key, kept in the registry", ok, om.relpath, gl.node.lineno if gl else 0,
+            "the returned lock is the registry's entry for the key", nec)
     return res
 
 
@@ -436,8 +453,14 @@ def rule_CW(run: Run) -> RuleResult:
             v = astu.expand_locals(s.value, amap_r)
             d = ast.unparse(v)
             ps_ = astu.param_names(reg)
-            ok = isinstance(v, ast.Dict) and len(v.keys) == 2 and v.keys[0] is None and ast.unparse(v.values[0]) == "self.lookup" \
-                and v.keys[1] is not None and ast.unparse(v.keys[1]) == ps_[0] and ast.unparse(v.values[1]) == ps_[1]
+            # a fresh dict seeded with the old table …
+            fresh = (isinstance(v, ast.Dict) and v.keys and v.keys[0] is None and ast.unparse(v.values[0]) == "self.lookup") or \
+                (isinstance(v, ast.Call) and ast.unparse(v.func) in ("dict", "self.lookup.copy") and (not v.args or ast.unparse(v.args[0]) == "self.lookup"))
+            # … that receives key -> value either in the display or by an item store on the local
+            in_display = isinstance(v, ast.Dict) and any(k is not None and ast.unparse(k) == ps_[0] and ast.unparse(val) == ps_[1] for k, val in zip(v.keys, v.values))
+            local = s.value.id if isinstance(s.value, ast.Name) else None
+            by_store = local is not None and any(isinstance(t, ast.Assign) and ast.unparse(t.targets[0]) == f"{local}[{ps_[0]}]" and ast.unparse(t.value) == ps_[1] for t in ast.walk(reg))
+            ok = bool(fresh) and (in_display or by_store)
     res.add("labrea.overload.Overloaded.register:assigns a fresh table {**self.lookup, key: value}", ok, ov.module.relpath, reg.lineno, d, nec)
     ds = repo.cls("Dataset")
     r2 = ds.methods.get("register")
@@ -446,8 +469,24 @@ def rule_CW(run: Run) -> RuleResult:
     ovl = ds.methods.get("overload")
     ok = False
     if ovl is not None:
-        t = ast.unparse(ovl)
-        ok = "for key in alias:\n            self.register(key, overload_)" in t and "return overload_" in t
+        alias_p = astu.param_names(ovl)[0]
+        derived = {alias_p}
+        for s_ in astu.walk_no_nested(ovl):
+            if isinstance(s_, (ast.Assign, ast.AnnAssign)) and s_.value is not None and astu.contains_name(s_.value, alias_p):
+                tg = s_.targets[0] if isinstance(s_, ast.Assign) else s_.target
+                if isinstance(tg, ast.Name):
+                    derived.add(tg.id)
+        for inner in [x for x in ast.walk(ovl) if isinstance(x, ast.FunctionDef) and x is not ovl]:
+            rets = [r.value.id for r in ast.walk(inner) if isinstance(r, ast.Return) and isinstance(r.value, ast.Name)]
+            for lp in [x for x in ast.walk(inner) if isinstance(x, ast.For)]:
+                if not (isinstance(lp.target, ast.Name) and isinstance(lp.iter, ast.Name) and lp.iter.id in derived):
+                    continue
+                for c in astu.calls_in(lp):
+                    if isinstance(c.func, ast.Attribute) and c.func.attr == "register" and astu.is_self_attr(c.func) and len(c.args) == 2 \
+                            and ast.unparse(c.args[0]) == lp.target.id and isinstance(c.args[1], ast.Name) and c.args[1].id in rets:
+                        # one implementation object for all aliases: created outside the loop
+                        created_in_loop = any(isinstance(a_, (ast.Assign, ast.AnnAssign)) and ast.unparse(a_.targets[0] if isinstance(a_, ast.Assign) else a_.target) == c.args[1].id for a_ in ast.walk(lp))
+                        ok = not created_in_loop
     res.add("labrea.dataset.Dataset.overload:registers the implementation under every alias", ok, ds.module.relpath, ovl.lineno if ovl else 0, "", nec)
     sd = ds.methods.get("set_dispatch")
     ok = False
@@ -490,6 +529,8 @@ def rule_TI(run: Run) -> RuleResult:
     if n < 5:
         raise AnalysisError(f"only {n} keyed accesses of {TABLE} found")
     ih = run.repo.func("labrea.runtime.inherit")
-    ok = any(isinstance(s, ast.Assign) and ast.unparse(s.targets[0]) == f"{TABLE}[threading.current_thread()]" and ast.unparse(s.value).startswith(f"{TABLE}.get(parent") for s in ast.walk(ih.node))
+    amap_i = astu.single_assign_map(ih.node)
+    ok = any(isinstance(s, ast.Assign) and ast.unparse(astu.expand_locals(s.targets[0], amap_i)) == f"{TABLE}[threading.current_thread()]"
+             and ast.unparse(astu.expand_locals(s.value, amap_i)).startswith(f"{TABLE}.get(parent") for s in ast.walk(ih.node))
     res.add("labrea.runtime.inherit:copies the parent's current runtime into the caller's slot", ok, m.relpath, ih.node.lineno, "", nec)
     return res
